@@ -15,5 +15,8 @@ Record crypto_laws (C : crypto) : Prop := {
   sha_inj : forall a b, sha C a = sha C b -> a = b;
   pw_ok : forall p q, pw_dom p -> pw_dom q -> (pwcheck C (pwhash C p) q = true <-> p = q);
   pw_nohash : forall h q, (forall p, h <> pwhash C p) -> pwcheck C h q = false;
+  (* a password bcrypt cannot read in full verifies against nothing (hasher.go after the repair of F16: the comparing
+     side refuses what the generating side refuses; before it, every extension of a 72-byte password verified) *)
+  pw_long : forall h q, (72 < length q)%nat -> pwcheck C h q = false;
   pw_nocomma : forall p, bmem_byte ","%byte (pwhash C p) = false;
 }.
